@@ -257,6 +257,7 @@ class Interp:
         self.cur_mod: Optional[ModInfo] = None
         self.decide: Optional[Callable[[Any], Optional[bool]]] = None  # schema assumptions
         self.call_stack: List[str] = []
+        self._with_stack: List[List[Any]] = []
         from . import extlib  # late import (extlib uses this module's names)
 
         self.ext = extlib
@@ -698,12 +699,18 @@ class Interp:
                         return ("return", val)
             return None
         if isinstance(st, ast.With):
+            self._with_stack.append([])
             for item in st.items:
                 cm = self.eval(item.context_expr, env, mi)
+                self._with_stack[-1].append(cm)
                 self.log("with", st, ctx=cm)
                 if item.optional_vars is not None:
                     self.assign(item.optional_vars, cm, env, mi, st)
+            cms = [self.eval(item.context_expr, env, mi) for item in st.items] if False else []
             kind, val = self.exec_stmts(list(st.body), env, mi, lambda e: ("next", None))
+            for cm in reversed(self._with_stack.pop() if self._with_stack else []):
+                if isinstance(cm, Obj) and "__exit__" in cm.attrs:
+                    self.call_function(cm.attrs["__exit__"], [], {}, st)
             if kind in ("return", "break", "continue"):
                 return (kind, val) if not (kind == "return" and val is BOTTOM) else ("raise", None)
             return None
@@ -756,7 +763,10 @@ class Interp:
         if isinstance(target, ast.Attribute):
             obj = self.eval(target.value, env, mi)
             if isinstance(obj, Obj):
-                obj.attrs[target.attr] = v
+                if ("set:" + target.attr) in obj.dyn:
+                    obj.dyn["set:" + target.attr](v)
+                else:
+                    obj.attrs[target.attr] = v
                 obj.stores.append((target.attr, v))
                 self.log("setattr", st, obj=obj, attr=target.attr, value=v)
                 return
@@ -1064,6 +1074,8 @@ class Interp:
             if isinstance(a, (bool,)) or isinstance(b, bool):
                 r = a is b
                 return (not r) if neg else r
+            if isinstance(a, Obj) and isinstance(b, Obj) and not a.open_attrs and not b.open_attrs:
+                return (a is b) != neg
             if isinstance(a, (TV, Obj)) and isinstance(b, (TV, Obj)):
                 if a is b or _term(a) == _term(b):
                     return not neg
@@ -1102,6 +1114,14 @@ class Interp:
         if isinstance(a, (TV, Obj)) or isinstance(b, (TV, Obj)):
             # comparisons with opaque values / tensors
             ta, tb = _term(a), _term(b)
+            ca = isinstance(a, Obj) and not a.open_attrs
+            cb = isinstance(b, Obj) and not b.open_attrs
+            if name in ("eq", "ne") and (ca or cb) and "__eq__" not in getattr(a, "attrs", {}):
+                # a closed abstract object (exact class known, identity semantics for ==)
+                other = b if ca else a
+                if (ca and cb) or not isinstance(other, (TV, Obj)):
+                    same = a is b
+                    return same if name == "eq" else (not same)
             if name in ("eq", "ne") and (isinstance(a, Obj) or isinstance(b, Obj) or (isinstance(a, TV) and a.kind == "opaque") or (isinstance(b, TV) and b.kind == "opaque")):
                 if ta == tb:
                     return name == "eq"
@@ -1138,6 +1158,8 @@ class Interp:
                 return ModV(self.modinfo(sub.rel))
             return Unknown(f"{v.info.name} has no attribute {attr}")
         if isinstance(v, ExtV):
+            if attr == "__name__":
+                return v.name.rsplit(".", 1)[-1]
             if v.name + "." + attr in self.ext.EXT_CONSTS:
                 return self.ext.EXT_CONSTS[v.name + "." + attr]
             return ExtV(v.name + "." + attr)
@@ -1156,6 +1178,8 @@ class Interp:
                     return ExtV(b.name + "." + attr)
             return Unknown(f"class attr {attr}")
         if isinstance(v, Obj):
+            if attr in v.dyn:
+                return v.dyn[attr]()
             if attr in v.attrs:
                 return v.attrs[attr]
             if v.cls is not None:
